@@ -31,6 +31,7 @@ ASSUMPTIONS = [
     "parts of one score share the metrical structure (measures, signatures, pickup) in musical time and differ in divisions and notes",
     "time-signature meta events are compared for anacrusis behaviours 'shift' and 'pad_bar'; under 'time_sig_change' the library deliberately rewrites signatures and only notes, keys and tempi are compared",
     "tempo marks are placed in the first part only (tempo is global in a MIDI file)",
+    "scores whose lcm of divisions (after doubling) exceeds 32767 are excluded: the MIDI header cannot store it",
     "import modes 2 and 4 do not mirror export modes 2 and 4 by documentation (single part): only the note multiset is compared there",
 ]
 
@@ -251,6 +252,10 @@ def oracle(spec):
         ppq = lcm(ppq, d)
     while ppq < spec["min_ppq"]:
         ppq *= 2
+    if ppq > 32767:
+        # the MIDI header stores ticks per quarter in 15 bits: such a score has no MIDI image
+        o.excluded.append("lcm-of-divisions-exceeds-midi-header-range")
+        return o
     trefs = [G.TimeRef(ps) for ps in parts]
     first = min(tr.quarter(0) for tr in trefs)  # <= 0: minus the pickup length
     if first < 0 and anac == "pad_bar":
